@@ -424,6 +424,11 @@ func (o *c15) Step(r *StepRec) []Violation {
 }
 
 func (o *c15) checkListings(s *Snapshot, sig string) {
+	defer func() {
+		if r := recover(); r != nil {
+			o.fail("c15:list_panic", "listing bindings panicked: %v", r)
+		}
+	}()
 	names := append([]string{}, ServiceNames...)
 	names = append(names, ModSvcName)
 	owners := append([]string{}, Signers...)
